@@ -183,6 +183,26 @@ theorem engineFor_ok (t : Table) : EngineOKFwd (Engine.engineFor t) ∧ EngineNo
   · exact modelEngineC_ok t
   · exact modelEngine_ok t
 
+/-- **whole_call_fwd_roundtrip** (C07(3) for every call the whole-call model covers): mapping an output cell to its input
+    position and back never lands behind that cell -/
+theorem whole_call_fwd_roundtrip (ti : TableInfo) (disp : Nat → Nat) (t : Table) (a : Args)
+    (h : (fwd (some ti) disp (Engine.engineFor t) a).ret = 1) (hpos : 0 < (fwd (some ti) disp (Engine.engineFor t) a).inlen)
+    (k : Nat) (hk : k < (fwdRun ti (Engine.engineFor t) a).output.length) :
+    PosMap.scan (fwd (some ti) disp (Engine.engineFor t) a).inlen (fwdRun ti (Engine.engineFor t) a).output.length
+      (fwdRun ti (Engine.engineFor t) a).posMapping (fun _ => -1)
+      (PosMap.clamp (fwd (some ti) disp (Engine.engineFor t) a).inlen
+        (((fwdRun ti (Engine.engineFor t) a).posMapping.take (fwdRun ti (Engine.engineFor t) a).output.length).getD k 0)) ≤ k := by
+  have hi := fwdRun_inv ti (Engine.engineFor t) a (engineFor_ok t).1
+  have hnn := fwdRun_nonneg ti (Engine.engineFor t) a (engineFor_ok t).1 (engineFor_ok t).2
+  generalize hs : fwdRun ti (Engine.engineFor t) a = s at hi hnn hk ⊢
+  have hfw : fwd (some ti) disp (Engine.engineFor t) a = fwdFinish disp a s := by unfold fwd; simp only []; rw [hs]
+  rw [hfw] at h hpos ⊢
+  have hlen : s.output.length < s.posMapping.length := by have := hi.len; omega
+  have hr := C07.fwd_roundtrip disp a s h hpos hlen (fun p hp => hnn p (List.mem_of_mem_take hp)) k hk
+  have hk' : k < (s.posMapping.take s.output.length).length := by rw [List.length_take]; omega
+  rw [List.getD_eq_getElem?_getD, List.getElem?_eq_getElem hk']
+  exact hr
+
 /-- what the protocol operation MCALL prints IS the driver model run with the modelled engines: the theorems of this
     file are about exactly the function the whole-call differential compares with the code -/
 theorem callFwd_eq (t : Table) (disp : Nat → Nat) (a : Args) (r : Result) (hs : List (PassIn × PassOut))
